@@ -155,7 +155,15 @@ def quote_in_python(k: int, k2: int, w: int) -> bool:
     want = src[1:-1] if src.startswith("{") else src
     # a quoted name that is a valid identifier denotes the same variable with or without its back-ticks
     bare = lambda e: re.sub(r"`([A-Za-z_][A-Za-z_0-9]*)`", lambda m: m.group(1), e)
-    return len(terms) == 2 and terms[0] == ["1"] and len(terms[1]) == 1 and bare(terms[1][0]) == bare(want)
+    if not (len(terms) == 2 and terms[0] == ["1"] and len(terms[1]) == 1 and bare(terms[1][0]) == bare(want)):
+        return False
+    import ast
+
+    try:  # ... and with its quoted names read as identifiers the factor is (still) Python
+        ast.parse(re.sub(r"`[^`]*`", " _q ", terms[1][0]).strip(), mode="eval")
+    except SyntaxError:
+        return False
+    return True
 
 
 def quote_python(c: str) -> bool:
